@@ -71,6 +71,10 @@ class Check:
         self.tier = tier
         self.t0 = time.time()
         self.targets = list(targets) if targets is not None else [f'WcModel.Properties.{prop}']
+        # the hand-written regex fragments of the model (Model/Frag.lean) = the source's constants (Generated.lean): a tie of
+        # every property whose theorems mention them, not only of the ones that import it (seeded change C12f edited RE_NO_DIR)
+        if prop not in ('C07', 'C11', 'C14', 'C15', 'C19', 'C20') and 'WcModel.Proofs.FragRender' not in self.targets:
+            self.targets.append('WcModel.Proofs.FragRender')
         # every module WcModel/Properties/<ID>*.lean belongs to the property (e.g. C05split, C10wf)
         pdir = os.path.join(common.LEAN, 'WcModel', 'Properties')
         for f in sorted(os.listdir(pdir)):
